@@ -2593,8 +2593,11 @@ class Interp:
     def _literal_builtin(self, q, args, kwargs):
         """enumerate / zip / range / reversed / len on literal sequences (constant propagation)."""
         a = [self.as_term(x) for x in args]
-        if q == "builtins.enumerate" and len(a) == 1 and self._is_lit(a[0]):
-            return ("tuple", tuple(("tuple", (C(i), x)) for i, x in enumerate(a[0][1])))
+        if q == "builtins.enumerate" and len(a) in (1, 2) and self._is_lit(a[0]):
+            start = a[1] if len(a) == 2 else self.as_term(kwargs["start"]) if "start" in kwargs else C(0)
+            if not (is_const(start) and isinstance(start[1], int)) or set(kwargs) - {"start"}:
+                return None
+            return ("tuple", tuple(("tuple", (C(i), x)) for i, x in enumerate(a[0][1], start[1])))
         if q == "builtins.range" and a and all(is_const(x) and isinstance(x[1], int) for x in a) and not kwargs:
             r = range(*[x[1] for x in a])
             if len(r) <= 64:
